@@ -8,17 +8,24 @@ calls) of up to 30 consecutive step() calls must equal the model's trace bit for
 The thresholds run through every legal regime (low < high, low = high, low > high, at / above the quality 1 of an
 exact step); the zero step (quality 0/0, not a number) is part of both scripted universes.  Every trace is also judged
 directly by oracles written from the property text / the strategies' documentation (check_clauses, check_strategy).
+The exact universe is run in several regimes of the size of the loss and of its changes (REGIMES: |theta| ~ 2^12, 2^5, 2^-16 with steps of
+a few grid units, a float32 model) under both process default dtypes; an inexact "offset universe" (offset_one: loss dominated by constant
+residual rows, arbitrary floating steps, LM / GN, float64 / float32 model, both default dtypes) is judged by exact Fractions of the polynomial
+loss, granting only the round-off of the model's own dtype.
 Real residual models (LM and GN; well / ill conditioned; kernels, kernel lists, correctors, target call form, several
-residual tensors, hyper-parameter regimes, starts at an exact stationary point) are checked against the clauses
+residual tensors, hyper-parameter regimes, starts at an exact stationary point, constant rows dominating the loss, both default dtypes;
+tolerance 1e-12 relative) are checked against the clauses
 (returned value = optimizer.loss = true robust loss, optimizer.last = loss at the parameters given - first call of a fresh
 optimizer included -, monotone unless exhausted, restoration, trial bound) and every call into strategy.update is
 observed (arguments = true losses; documented transition for the step quality recomputed exactly from J, D, R)."""
-import io, contextlib
+import io, contextlib, random
 from ..common import *
 
 RULE = ('scripted universe: (strategy kind, hyper-parameters, reject, theta0, script of solver steps / raises) -> trace of step() calls; '
         'directed scripts make the first k trials increase the loss for k = 0..reject+1 and raise at solve j for every j; '
-        'thresholds in every legal order, zero steps (quality 0/0) included; real LM / GN models with kernels, correctors, targets, stationary starts; '
+        'thresholds in every legal order, zero steps (quality 0/0) included; regimes of the size of the loss and of its changes (theta ~ 2^12 / 2^5 / 2^-16 with steps of a few '
+        'grid units: relative changes of 2^-24, absolute ones of 2^-56; float32 model) under both process default dtypes, still exact; offset universe (loss dominated by constants, '
+        'arbitrary floating steps, exact-Fraction oracle with the round-off of the model dtype only); real LM / GN models with kernels, correctors, targets, stationary starts, constant rows; '
         'non-trivial = trace with at least one rejected trial or raise; distinct by full script')
 
 
@@ -63,17 +70,40 @@ class Raise(Exception):
 
 
 STATS = {}
+# real models: the harness's own float64 evaluation of the documented loss formulas and the implementation's agree to ~1e-15 relative (measured
+# over thousands of calls); a worse loss / a wrong cached loss is reported from 1e-12 relative on, so that it is also seen when the loss is
+# dominated by a large constant part
+RTOL = 1e-12
 
 
 def stat(k):
     STATS[k] = STATS.get(k, 0) + 1
 
 
-def run_scripted(pp, torch, c, reject, theta0, script, ncalls, gn=False, quad=None):
+@contextlib.contextmanager
+def default_dtype(torch, name):
+    """the process default dtype while a case runs (None: leave it alone - float32 unless somebody changed it)"""
+    if name is None:
+        yield
+        return
+    old = torch.get_default_dtype()
+    torch.set_default_dtype(getattr(torch, name))
+    try:
+        yield
+    finally:
+        torch.set_default_dtype(old)
+
+
+def run_scripted(pp, torch, c, reject, theta0, script, ncalls, gn=False, quad=None, mdt=None, dd=None):
+    with default_dtype(torch, dd):
+        return run_scripted_(pp, torch, c, reject, theta0, script, ncalls, gn, quad, getattr(torch, mdt or 'float64'))
+
+
+def run_scripted_(pp, torch, c, reject, theta0, script, ncalls, gn, quad, DT):
     class One(torch.nn.Module):
         def __init__(self):
             super().__init__()
-            self.t = torch.nn.Parameter(torch.tensor([theta0], dtype=torch.float64))
+            self.t = torch.nn.Parameter(torch.tensor([theta0], dtype=DT))
 
         def forward(self, x):
             return self.t if quad is None else self.t * self.t - quad      # residual theta, or theta^2 - c
@@ -89,14 +119,14 @@ def run_scripted(pp, torch, c, reject, theta0, script, ncalls, gn=False, quad=No
             d = script[j] if j < len(script) else None
             if d is None:
                 raise Raise('scripted solver failure at solve %d' % j)
-            return torch.tensor([[d]], dtype=torch.float64)
+            return torch.tensor([[d]], dtype=DT)
     model, solver = One(), Solver()
     if gn:
         opt = pp.optim.GN(model, solver=solver)
     else:
         opt = pp.optim.LM(model, solver=solver, strategy=make_strategy(pp, c), reject=reject, min=2.0 ** -30, max=2.0 ** 30)
     obs = []
-    x = torch.zeros(1, dtype=torch.float64)
+    x = torch.zeros(1, dtype=DT)
     for _ in range(ncalls):
         try:
             with contextlib.redirect_stdout(io.StringIO()):
@@ -200,6 +230,63 @@ def gen_script_quad(rng, c, cc, theta0, reject, n=120):
     return script, ''.join(classes)
 
 
+# Regimes of the exact scripted universe.  theta = N 2^-g with |N| < 2^26 (float64 model; 2^12 for a float32 model), so theta, theta^2, the
+# differences of losses and the predicted decreases are exact and the trace must still equal the model's bit for bit, but the SIZE of the
+# loss and of its changes differs by many orders of magnitude: one grid step changes the loss by a relative 2^-24 .. 2^-22 ('large', 'fine':
+# far above the round-off of the model's dtype, below the resolution of a narrower one), or by an absolute 2^-80 .. 2^-56 ('tiny').
+# M bounds |theta| softly (the generator turns around there; exactness holds up to 2 M).
+REGIMES = {
+    'large': dict(g=13, M=4096.0, mdt='float64', starts=[3072.0, -4000.0, 3584.5, 2048.0 + 2.0 ** -13, -3000.0 - 3 * 2.0 ** -13]),
+    'fine': dict(g=20, M=32.0, mdt='float64', starts=[24.0, -31.0, 16.5, 28.0 + 2.0 ** -20]),
+    'tiny': dict(g=40, M=2.0 ** -15, mdt='float64', starts=[2.0 ** -16, -3 * 2.0 ** -18, 5 * 2.0 ** -20, -2.0 ** -16 - 2.0 ** -40]),
+    'single': dict(g=4, M=128.0, mdt='float32', starts=[1.0, -2.0, 3.0, 100.0, -96.5]),
+}
+
+
+def gen_script_regime(rng, reg, theta0, reject, k, raise_at=None, n=200):
+    """scripted steps in a regime: the first k trials of the run make the loss worse, later ones are mixed; most changes are a few grid
+    units (minimal relative / absolute change of the loss, in both directions).  Tracks the accept / reject rule of the property exactly."""
+    u, M = 2.0 ** -reg['g'], reg['M']
+    rnd = lambda x: round(x / u) * u
+    th, rc, script = theta0, 0, []
+    for j in range(n):
+        if raise_at is not None and j == raise_at:
+            script.append(None)
+            rc = 0
+            continue
+        sg = 1.0 if th >= 0 else -1.0
+        r = rng.random()
+        if j < k or rng.random() < 0.3:
+            # worse
+            cf = rng.choice([0.5, 1.0, 3.0])
+            if r < 0.6 or (1 + cf) * abs(th) > M:
+                d = sg * rng.choice([1, 1, 2, 3, 5]) * u
+            elif r < 0.8:
+                d = sg * rng.choice([16, 1024]) * u
+            else:
+                d = rnd(sg * cf * max(abs(th), 8 * u))
+        else:
+            if r < 0.45 and abs(th) >= 8 * u:
+                d = -sg * rng.choice([1, 1, 2, 3]) * u          # minimal decrease
+            elif r < 0.6:
+                d = rnd(-th / rng.choice([64, 16]))
+            elif r < 0.7:
+                d = rnd(-th * rng.choice([0.5, 0.25, 0.75, 1.0]))
+            elif r < 0.85:
+                d = 0.0                                         # equal loss
+            else:
+                d = -2 * th                                     # equal loss, different parameters
+        if abs(th + d) > 2 * M * 0.99:
+            d = rnd(-th / 2)
+        script.append(d)
+        new = th + d
+        if th * th < new * new and rc < reject:
+            rc += 1
+        else:
+            th, rc = new, 0
+    return script
+
+
 def cfg_lit(c):
     dm = c.get('damping', (1.0 / c['radius']) if c['kind'] == 2 else 0.0)
     ra = c.get('radius', 0.0)
@@ -215,14 +302,21 @@ def run(ctx):
     rng = ctx.rng
     metas, cases = [], []
 
-    def add(c, reject, theta0, script, ncalls):
-        obs = run_scripted(pp, torch, c, reject, theta0, script, ncalls)
+    def add(c, reject, theta0, script, ncalls, regime=None, dd=None):
+        mdt = REGIMES[regime]['mdt'] if regime else None
+        obs = run_scripted(pp, torch, c, reject, theta0, script, ncalls, mdt=mdt, dd=dd)
+        if regime and any(o is not None and abs(o[1]) >= 2 * REGIMES[regime]['M'] for o in obs):
+            ctx.count('lm-regime-left-exact-range-not-judged')          # theta^2 would round: not part of the exact universe
+            return
         ntriv = any(o is None or o[3] > 0 for o in obs)
-        ctx.case(('lm', c['kind'], reject, theta0, tuple(script[:40])), nontrivial=ntriv, branch='lm-kind%d' % c['kind'])
+        ctx.case(('lm', regime, dd, c['kind'], reject, theta0, tuple(script[:40])) if regime else ('lm', c['kind'], reject, theta0, tuple(script[:40])),
+                 nontrivial=ntriv, branch=('lm-kind%d' % c['kind']) + ('-regime-%s-default-dtype-%s' % (regime, dd or 'float32') if regime else ''))
         ctx.traces += 1
         i = len(metas)
         used = max([o[7] for o in obs if o is not None] + [0]) + 2
         metas.append(dict(kind='lm', cfg=c, reject=reject, theta0=theta0, script=script[:max(40, used)], ncalls=ncalls, obs=obs))
+        if regime:
+            metas[i].update(regime=regime, mdt=mdt, dd=dd)
         sl = coq_list(('None' if d is None else 'Some ' + qlit(d)) for d in script[:used])
         # a raising LM call is caught inside step(): the call still returns; None only for GN
         ol = coq_list('(%s, %s, %s, %d%%nat, %s, %s, %s, %d%%nat)' % (qlit(o[0]), qlit(o[1]), qlit(o[2]), o[3], qlit(o[4]), qlit(o[5]), qlit(o[6]), o[7]) for o in obs)
@@ -259,6 +353,24 @@ def run(ctx):
         th0 = rng.choice([1.0, -2.0, 3.0, 0.5, -0.75, 8.0])
         ra = rng.choice([None, None, rng.randint(0, 40)])
         add(c, reject, th0, gen_script(rng, th0, reject, 'mixed', raise_at=ra, n=600), rng.choice([5, 10, 30]))
+    # regimes of the size of the loss and of its changes (large theta with minimal relative changes, tiny theta with minimal absolute
+    # changes, a float32 model), each under both process default dtypes: the accept / reject decision, the loss bookkeeping and the
+    # strategy may only look at the model's own numbers.  Own random stream: the cases above and below do not depend on this block.
+    rng2 = random.Random('C08-regimes-%r' % (ctx.seed,))
+    for regime in sorted(REGIMES):
+        reg = REGIMES[regime]
+        for kind in (0, 1, 2):
+            for reject in (list(range(0, 17)) if ctx.thorough else [0, 1, 2, 16]):
+                for k in (range(0, reject + 2) if ctx.thorough or reject <= 2 else [1, reject, reject + 1]):
+                    th0 = rng2.choice(reg['starts'])
+                    add(gen_cfg(rng2, kind), reject, th0, gen_script_regime(rng2, reg, th0, reject, k), rng2.choice([1, 2, 3]), regime=regime,
+                        dd=rng2.choice([None, None, 'float64']))
+        for t in range(ctx.scale(24, 400)):
+            reject = rng2.choice([0, 1, 2, 3, 4, 8, 16])
+            th0 = rng2.choice(reg['starts'])
+            ra = rng2.choice([None, None, rng2.randint(0, 30)])
+            add(gen_cfg(rng2, t % 3), reject, th0, gen_script_regime(rng2, reg, th0, reject, rng2.randint(0, reject + 1), raise_at=ra, n=600),
+                rng2.choice([5, 10, 30]), regime=regime, dd=rng2.choice([None, 'float64']))
     # nonlinear scripted universe (residual theta^2 - c): the quality ratio takes every value, all three branches of the
     # Adaptive / TrustRegion updates are reached, in the orders unsuccessful -> successful -> unsuccessful etc.
     qmetas, qcases = [], []
@@ -324,6 +436,7 @@ def run(ctx):
             else:
                 ctx.mismatch('gn-trace', gmetas[i])
     # ---------------------------------------------------------------- real residual models vs the proved invariants
+    offset_models(ctx, pp, torch)
     real_models(ctx, pp, torch)
     # ---------------------------------------------------------------- search: the property's clauses, directly
     for m in ctx.mismatches[:60]:
@@ -337,10 +450,10 @@ def shard(items, n):
     return [items[k:k + n] for k in range(0, len(items), n)]
 
 
-def check_clauses(pp, torch, c, reject, theta0, script, ncalls, gn=False, obs=None):
+def check_clauses(pp, torch, c, reject, theta0, script, ncalls, gn=False, obs=None, mdt=None, dd=None):
     """the clauses of C08 evaluated directly on the implementation (scripted universe, exact)"""
     if obs is None:
-        obs = run_scripted(pp, torch, c, reject, theta0, script, ncalls, gn=gn)
+        obs = run_scripted(pp, torch, c, reject, theta0, script, ncalls, gn=gn, mdt=mdt, dd=dd)
     th_prev, loss_prev, n_prev = theta0, theta0 * theta0, 0
     damp_prev = None
     for k, o in enumerate(obs):
@@ -412,7 +525,7 @@ def doc_strategy(c, damp, rad, down, rho):
     return 1 / rad, rad, down
 
 
-def check_strategy(pp, torch, c, reject, theta0, cc, script, ncalls, obs=None):
+def check_strategy(pp, torch, c, reject, theta0, cc, script, ncalls, obs=None, mdt=None, dd=None):
     """the strategy clause of C08 in the scripted universes (cc None: residual theta, else theta^2 - cc), from the
     documentation of the strategies: after each trial  rho = (last - loss) / (|f|^2 - |f + J d|^2);  Adaptive: damping *= down
     if rho > high, unchanged if rho > low, else *= up, then clamped to [min, max];  TrustRegion: radius *= up and down-factor
@@ -423,7 +536,7 @@ def check_strategy(pp, torch, c, reject, theta0, cc, script, ncalls, obs=None):
     if c is None or c['kind'] == 0:
         return None                    # Constant: check_clauses
     if obs is None:
-        obs = run_scripted(pp, torch, c, reject, theta0, script, ncalls, quad=cc)
+        obs = run_scripted(pp, torch, c, reject, theta0, script, ncalls, quad=cc, mdt=mdt, dd=dd)
     res = (lambda t: t) if cc is None else (lambda t: t * t - F_(cc))
     jac = (lambda t: F_(1)) if cc is None else (lambda t: 2 * t)
     loss = lambda t: res(t) ** 2
@@ -482,13 +595,196 @@ def replay(ctx, c):
         return check_strategy(pp, torch, c['cfg'], c['reject'], c['theta0'], c['quad'], c['script'], c['ncalls'])
     if c.get('kind') == 'lm':
         sc = c['script'] + [0.0] * 600
-        return (check_clauses(pp, torch, c['cfg'], c['reject'], c['theta0'], sc, c['ncalls'])
-                or check_strategy(pp, torch, c['cfg'], c['reject'], c['theta0'], None, sc, c['ncalls']))
+        kw = dict(mdt=c.get('mdt'), dd=c.get('dd'))
+        return (check_clauses(pp, torch, c['cfg'], c['reject'], c['theta0'], sc, c['ncalls'], **kw)
+                or check_strategy(pp, torch, c['cfg'], c['reject'], c['theta0'], None, sc, c['ncalls'], **kw))
+    if c.get('kind') == 'offset':
+        return offset_one(pp, torch, c)
     if c.get('kind') == 'gn':
         return check_clauses(pp, torch, None, 0, c['theta0'], c['script'], c['ncalls'], gn=True)
     if c.get('kind') == 'real':
         return real_one(pp, torch, c)
     return None
+
+
+# ------------------------------------------------------------------------------------------------
+def offset_one(pp, torch, c):
+    """The scripted solver on the residual (C_1, .., C_p, theta) - a loss C_1^2 + .. + C_p^2 + theta^2 dominated by constants (or not: p = 0) -
+    with arbitrary floating steps, a float64 or float32 model, under either process default dtype, LM with every strategy or GN.
+    The oracle is the property text on exact Fractions of the parameter values the model holds: the loss is a polynomial, so the true loss
+    is known exactly; the implementation's own floating evaluation of it (p + 1 squares and a sum) and the retraction undo theta + d - d are
+    granted their round-off in the MODEL's dtype and nothing more.  A trial that increases the true loss by more than that must be rejected
+    while rejections are left, however small the increase is relative to the loss."""
+    with default_dtype(torch, c.get('dd')):
+        return offset_one_(pp, torch, c, getattr(torch, c['mdt']))
+
+
+def offset_one_(pp, torch, c, DT):
+    F_ = Fraction
+    eps, tiny = F_(float(torch.finfo(DT).eps)), F_(float(torch.finfo(DT).tiny))      # tiny: underflow of theta^2
+    fl = lambda v: float(torch.tensor(v, dtype=DT))
+    offs = [fl(v) for v in c['offs']]
+    script = [None if d is None else fl(d) for d in c['script']]
+    reject, gn, pos, cfg = c['reject'], c.get('opt') == 'gn', min(c.get('pos', 0), len(offs)), c['cfg']
+    K0 = sum(F_(v) ** 2 for v in offs)
+    L = lambda t: K0 + t * t
+
+    class Off(torch.nn.Module):
+        def __init__(self):
+            super().__init__()
+            self.t = torch.nn.Parameter(torch.tensor([c['theta0']], dtype=DT))
+            self.c = torch.tensor(offs, dtype=DT)
+
+        def forward(self, x):
+            return torch.cat([self.c[:pos], self.t, self.c[pos:]]).unsqueeze(-1)
+
+    class Solver(torch.nn.Module):
+        def __init__(self):
+            super().__init__()
+            self.n = 0
+
+        def forward(self, A, b):
+            j = self.n
+            self.n += 1
+            d = script[j] if j < len(script) else None
+            if d is None:
+                raise Raise('scripted solver failure at solve %d' % j)
+            return torch.tensor([[d]], dtype=DT)
+    model, solver = Off(), Solver()
+    opt = pp.optim.GN(model, solver=solver) if gn else pp.optim.LM(model, solver=solver, strategy=make_strategy(pp, cfg), reject=reject)
+    x = torch.zeros(1, dtype=DT)
+    th_prev, n_prev = F_(float(model.t[0])), 0
+    damp = None if gn else (F_(cfg['damping']) if cfg['kind'] < 2 else 1 / F_(cfg['radius']))
+    rad, down = (F_(cfg.get('radius', 0)), F_(cfg['down'])) if not gn else (None, None)
+    strat_ok, carry = not gn and cfg['kind'] > 0, False
+    where = 'offset universe (%s model, default dtype %s, constants %r, theta0=%r, %s)' % (
+        c['mdt'], c.get('dd') or 'float32', offs, c['theta0'], 'GN' if gn else 'LM reject=%d' % reject)
+    for k in range(c['ncalls']):
+        try:
+            with contextlib.redirect_stdout(io.StringIO()):
+                r = opt.step(x)
+        except Raise:
+            if F_(float(model.t[0])) != th_prev:
+                return 'solver-raise: %s call %d: the solver raised and theta changed from %r to %r' % (where, k, float(th_prev), float(model.t[0]))
+            return None
+        th, n = F_(float(model.t[0])), solver.n
+        tried = script[n_prev:n]
+        Lb, La = L(th_prev), L(th)
+        dmax = max([abs(F_(d)) for d in tried if d is not None] + [F_(0)])
+        rt = 2 * eps * (abs(th_prev) + dmax) * max(1, n - n_prev)        # round-off of theta + d (- d), once per trial
+        rtc = rt if dmax else F_(0)
+        if carry:
+            rtc += rt_prev          # the previous call ended by a raise after restorations: its cached loss belongs to parameters within rt_prev of these
+        mar = (len(offs) + 3) * (eps * max(Lb, La) + tiny) + (2 * abs(th_prev) + rtc) * rtc * 2
+        rt_prev = rtc
+        ret, cached, last = F_(float(r)), F_(float(opt.loss)), F_(float(opt.last))
+        if ret != cached:
+            return 'loss-attr: %s call %d returned %r, optimizer.loss is %r' % (where, k, float(r), float(opt.loss))
+        if abs(ret - La) > mar:
+            return ('true-loss: %s call %d (steps tried %r) returned %r; the loss at the parameters left behind (theta=%r) is %r (difference %.3e, round-off allowance %.3e)'
+                    % (where, k, tried, float(r), float(th), float(La), float(ret - La), float(mar)))
+        if abs(last - Lb) > mar:
+            return ('last: %s call %d recorded optimizer.last=%r; the loss at the parameters given (theta=%r) is %r (difference %.3e, round-off allowance %.3e)'
+                    % (where, k, float(opt.last), float(th_prev), float(Lb), float(last - Lb), float(mar)))
+        if gn:
+            if len(tried) != 1 or abs(th - (th_prev + F_(tried[0]))) > rt:
+                return 'gn-update: %s call %d: theta %r -> %r with solver steps %r' % (where, k, float(th_prev), float(th), tried)
+        else:
+            trials, rej = n - n_prev, int(opt.reject_count)
+            if trials > reject + 1:
+                return 'trials: %s call %d made %d solves' % (where, k, trials)
+            if La > Lb + 2 * mar and not (rej == reject and trials == reject + 1):
+                return ('monotone: %s call %d (steps tried %r): theta %r -> %r, true loss %r -> %r: an increase of %.3e (relative %.3e; the round-off allowance of the %s model is %.3e) '
+                        'was accepted after %d trial(s) in that call (reject_count %d)') % (where, k, tried, float(th_prev), float(th), float(Lb), float(La), float(La - Lb), float((La - Lb) / Lb) if Lb else 0.0,
+                                                                                      c['mdt'], float(mar), trials, rej)
+            moved = abs(th - th_prev) > rt
+            if moved and not (tried and tried[-1] is not None and abs(th - (th_prev + F_(tried[-1]))) <= rt):
+                return 'restore: %s call %d left theta=%r; before the call %r, steps tried %r' % (where, k, float(th), float(th_prev), tried)
+            if tried and tried[-1] is None and (moved or abs(ret - Lb) > mar):
+                return 'solver-raise: %s call %d: after the solver raised theta=%r loss=%r; before the trial theta=%r loss=%r' % (where, k, float(th), float(r), float(th_prev), float(Lb))
+            pg = opt.param_groups[0]
+            if cfg['kind'] == 0 and pg['damping'] != cfg['damping']:
+                return 'constant: %s call %d: damping changed from %r to %r' % (where, k, cfg['damping'], pg['damping'])
+            dirty = carry
+            carry = bool(tried) and tried[-1] is None and any(d for d in tried)      # ended by a raise after restorations
+            for d in tried:
+                # the documented transition for the documented quality (exact), judged while the quality is clear of the thresholds by
+                # more than the floating evaluation of (last - loss) / predicted can be off
+                if not strat_ok or d is None:
+                    continue
+                d = F_(d)
+                pred = -(d * (2 * th_prev + d))
+                rho = doc_quality(Lb - L(F_(fl(float(th_prev + d)))), pred) if d != 0 else float('nan')
+                if rho is None or (pred == 0 and dirty):
+                    strat_ok = False            # x/0, or 0/0 after a restoration theta + d - d that need not be exact: the sign of a floating zero
+                elif rho == rho and min(abs(rho - F_(cfg['high'])), abs(rho - F_(cfg['low']))) <= 4 * mar / abs(pred) + F_(1, 10 ** 6) * (1 + abs(rho)):
+                    strat_ok = False
+                    stat('offset-strategy-not-judged-further-near-threshold')
+                else:
+                    damp, rad, down = doc_strategy(cfg, damp, rad, down, rho)
+                dirty = dirty or d != 0
+            if strat_ok:
+                got = (F_(pg['damping']), F_(pg.get('radius', 0)), F_(pg.get('down', 0)))
+                want = (damp, rad if cfg['kind'] == 2 else got[1], down if cfg['kind'] == 2 else got[2])
+                if got != want:
+                    return ('strategy: %s call %d (steps tried %r from theta=%r), %s(high=%r, low=%r, up=%r, down=%r, factor=%r, min=%r, max=%r): damping/radius/down-factor are %s, the documented updates give %s'
+                            % (where, k, tried, float(th_prev), 'Adaptive' if cfg['kind'] == 1 else 'TrustRegion', cfg['high'], cfg['low'], cfg['up'], cfg['down'], cfg['factor'], cfg['smin'], cfg['smax'],
+                               [float(v) for v in got], [float(v) for v in want]))
+                stat('offset-strategy-state-judged')
+        th_prev, n_prev = th, n
+    return None
+
+
+def gen_offset(rng, t):
+    mdt = 'float32' if t % 4 == 3 else 'float64'
+    C = rng.choice([0.0, 30.0, 3e3, 1e5, 3e6] if mdt == 'float64' else [0.0, 30.0, 300.0])
+    offs = [C * rng.choice([1.0, -1.0, 0.5, 1.0 / 3]) for _ in range(rng.choice([1, 1, 2, 5]))] if C else []
+    theta0 = rng.choice([2.0, -1.5, 0.75, 10.0, -0.3, 1.0 / 3])
+    reject = rng.choice([0, 1, 2, 3, 8, 16])
+    gn = t % 7 == 6
+    k = rng.randint(0, reject + 1)
+    ra = rng.choice([None, None, rng.randint(0, 20)])
+    fr = [1e-8, 1e-6, 1e-4, 1e-3, 0.01, 0.1]
+    th, rc, script = Fraction(theta0), 0, []
+    for j in range(260):
+        if ra is not None and j == ra:
+            script.append(None)
+            rc = 0
+            continue
+        r = rng.random()
+        if (j < k or r < 0.3) and not gn:
+            d = float(th) * rng.choice(fr + fr + [1.0, 3.0]) if abs(th) > 1e-3 else rng.choice([0.01, -1.0])
+        elif r < 0.8:
+            d = -float(th) * rng.choice(fr + [0.25, 0.5, 0.75, 1.0])
+        elif r < 0.9:
+            d = 0.0
+        else:
+            d = -2 * float(th)
+        if abs(float(th) + d) > 1e3:
+            d = -float(th) / 2
+        script.append(d)
+        new = th + Fraction(d)
+        if th * th < new * new and rc < reject and not gn:
+            rc += 1
+        else:
+            th, rc = new, 0
+    return dict(kind='offset', mdt=mdt, dd=rng.choice([None, 'float64', 'float32']), offs=offs, pos=rng.randint(0, len(offs)), theta0=theta0, reject=reject,
+                opt='gn' if gn else 'lm', cfg=gen_cfg(rng, t % 3), script=script, ncalls=rng.choice([1, 3, 10, 10, 30]))
+
+
+def offset_models(ctx, pp, torch):
+    rng = random.Random('C08-offset-%r' % (ctx.seed,))
+    seen = {}
+    for t in range(ctx.scale(140, 1500)):
+        c = gen_offset(rng, t)
+        ctx.case(('offset', c['mdt'], c['dd'], tuple(c['offs']), c['theta0'], c['reject'], c['opt'], tuple(c['script'][:40])),
+                 branch='offset-universe-%s-%s-model-default-dtype-%s%s' % (c['opt'], c['mdt'], c['dd'] or 'float32', '' if c['offs'] else '-no-constants'))
+        ctx.traces += 1
+        why = offset_one(pp, torch, c)
+        if why and seen.get(why.split(':')[0], 0) < 3:               # a few inputs per clause are enough
+            seen[why.split(':')[0]] = seen.get(why.split(':')[0], 0) + 1
+            c = dict(c, script=c['script'][:80] if c['ncalls'] <= 3 else c['script'])
+            ctx.violation(('gn-clause:' if c['opt'] == 'gn' else 'lm-clause:') + why.split(':')[0], why, c)
 
 
 # ------------------------------------------------------------------------------------------------
@@ -507,8 +803,14 @@ def doc_kernel(torch, kind, delta, x):
 
 def real_one(pp, torch, c):
     """a real residual model stepped repeatedly by LM or GN (kernels, kernel lists, correctors, target call form, several
-    residual tensors, hyper-parameter regimes, starts at an exact stationary point); the clauses of the property are checked
+    residual tensors, hyper-parameter regimes, starts at an exact stationary point, constant residual rows that dominate the loss,
+    either process default dtype); the clauses of the property are checked
     directly after every call, and every call into strategy.update is checked against the documented update rule"""
+    with default_dtype(torch, c.get('dd')):
+        return real_one_(pp, torch, c)
+
+
+def real_one_(pp, torch, c):
     torch.manual_seed(c['seed'])
     n, m = c['n'], c['m']
     gn = c.get('opt', 'lm') == 'gn'
@@ -524,10 +826,14 @@ def real_one(pp, torch, c):
             A = A @ torch.diag(torch.logspace(0, -c['ill'], n, dtype=torch.float64))
         y = torch.randn(m, dtype=torch.float64)
     k = c.get('outs', 1)
-    rows = 2 * m if stationary else m
+    off = [float(v) for v in (c.get('offset') or [])]        # constant residual rows (no parameter moves them): a loss with a large constant part
+    rows = (2 * m if stationary else m) + len(off)
     cuts = [round(j * rows / k) for j in range(k + 1)]
     parts = [(cuts[j], cuts[j + 1]) for j in range(k) if cuts[j + 1] > cuts[j]]
     yy = torch.cat([y, -y]) if stationary else y
+    if off:
+        yy = torch.cat([yy, torch.zeros(len(off), dtype=torch.float64)])
+    offt = torch.tensor(off, dtype=torch.float64)
 
     class Net(torch.nn.Module):
         def __init__(self):
@@ -540,6 +846,8 @@ def real_one(pp, torch, c):
                 f = torch.cat([z, z])            # residual rows z - y and z + y
             else:
                 f = torch.sin(z) * c['nl'] + z
+            if off:
+                f = torch.cat([f, offt])
             r = (f if use_target else f - yy).unsqueeze(-1)
             if k == 1:
                 return r
@@ -596,7 +904,7 @@ def real_one(pp, torch, c):
             return osolver(A, b)
     opt.solver = Cnt()
     prev = own_loss()
-    state = dict(prev=prev, call=0)
+    state = dict(prev=prev, call=0, rtol=RTOL)
     if strat is not None:
         # observe the calls into the strategy: arguments and the documented transition (Fractions on the float arguments)
         orig = strat.update
@@ -611,7 +919,7 @@ def real_one(pp, torch, c):
             if problems:
                 return
             last, loss = float(last), float(loss)
-            tol = 1e-9 * max(1.0, abs(state['prev']), abs(trial))
+            tol = state['rtol'] * max(1.0, abs(state['prev']), abs(trial))
             if abs(last - state['prev']) > tol or abs(loss - trial) > tol:
                 problems.append('strategy-args: real model call %d: strategy.update was called with last=%r, loss=%r; the loss at the parameters given to the call is %r, at the trial parameters %r'
                                 % (state['call'], last, loss, state['prev'], trial))
@@ -672,13 +980,17 @@ def real_one(pp, torch, c):
         true = own_loss()
         if not (abs(true) < 1e100 and abs(prev) < 1e100):
             return None                  # diverged (GN on a hard model): nothing left to compare
-        tol = 1e-9 * max(1.0, abs(true))
+        # a call ended by a raising solver leaves parameters restored by x + D - D (round-off of the retraction, D can be huge) together with
+        # the loss cached before: that call's returned loss and the next call's `last` get the wider allowance
+        raised = c['raise_at'] is not None and n0 < c['raise_at'] == nsolve[0]
+        rtol = 1e-9 if raised else RTOL
+        tol = rtol * max(1.0, abs(true), abs(prev))
         if abs(r - true) > tol or abs(float(opt.loss) - true) > tol:
             return 'true-loss: real model %s call %d returned %r (optimizer.loss %r), loss at the parameters left behind is %r' % (c.get('opt', 'lm'), kk, r, float(opt.loss), true)
-        if abs(float(opt.last) - prev) > 1e-9 * max(1.0, abs(prev)):
+        if abs(float(opt.last) - prev) > state['rtol'] * max(1.0, abs(prev)):
             return 'last: real model %s call %d recorded optimizer.last=%r, the loss at the parameters given to the call is %r' % (c.get('opt', 'lm'), kk, float(opt.last), prev)
         if not gn:
-            if r > prev + tol and (opt.reject_count != c['reject'] or nsolve[0] - n0 != c['reject'] + 1):
+            if r > prev + max(rtol, state['rtol']) * max(1.0, abs(true), abs(prev)) and (opt.reject_count != c['reject'] or nsolve[0] - n0 != c['reject'] + 1):
                 return 'monotone: real model call %d returned %r > %r after %d trial(s) in that call (reject_count=%d, reject=%d)' % (kk, r, prev, nsolve[0] - n0, opt.reject_count, c['reject'])
             if nsolve[0] - n0 > c['reject'] + 1:
                 return 'trials: real model call %d made %d solves, reject=%d' % (kk, nsolve[0] - n0, c['reject'])
@@ -689,6 +1001,7 @@ def real_one(pp, torch, c):
                     return 'solver-raise: real model call %d: parameters / loss changed although the solver raised' % kk
         prev = true
         state['prev'] = prev
+        state['rtol'] = rtol
     return None
 
 
@@ -717,7 +1030,14 @@ def real_models(ctx, pp, torch):
         if c['opt'] == 'gn':
             c['calls'] = min(c['calls'], 10)
             c['ill'] = rng.choice([0, 0, 2])
-        ctx.case(('real', tuple(sorted(c.items(), key=str))), branch='real-model-%s%s' % (c['opt'], '-stationary-start' if c['stationary'] else ''))
+        # regimes of the loss and of the process (own random stream): constant residual rows that dominate the loss, so that a trial can be
+        # worse by a tiny RELATIVE amount; the process default dtype differs from / equals the model's float64
+        rng3 = random.Random('C08-real-%r-%d' % (ctx.seed, t))
+        if rng3.random() < 0.4:
+            C = rng3.choice([30.0, 3e3, 1e5, 1e6])
+            c['offset'] = [C * rng3.choice([1.0, -1.0, 0.5]) for _ in range(rng3.choice([1, 1, 2, 4]))]
+        c['dd'] = rng3.choice([None, None, 'float64'])
+        ctx.case(('real', tuple(sorted(c.items(), key=str))), branch='real-model-%s%s%s' % (c['opt'], '-stationary-start' if c['stationary'] else '', '-constant-rows' if c.get('offset') else ''))
         try:
             why = real_one(pp, torch, c)
         except Raise:
